@@ -316,7 +316,16 @@ def classify(sc, world, cls, probs):
     if cls != "quiescent":
         return None
     if all(p.startswith("producer ") for p in probs) and not f["connected"] and not f["in_map"]:
-        return "kf_c05_park_after_close"
+        # only a producer that started its wait AFTER the channel had left the map
+        ev = world.sched.events
+        closed_at = min([i for i, e in enumerate(ev) if e[1] == "map_del"], default=None)
+        ob = object.__getattribute__(world.channel, "outbuf_lock").name
+        names = [n for n, where in parked(world).items() if where == "outbuf_cv"]
+        last_wait = [max([i for i, e in enumerate(ev) if e[0] == n and e[1] == "wait" and e[2] == ob], default=-1)
+                     for n in names]
+        if closed_at is not None and last_wait and all(i > closed_at for i in last_wait):
+            return "kf_c05_park_after_close"
+        return None
     if hw == 0 and any(p.startswith("producer ") for p in probs) and \
             all(p.startswith("producer ") or p.startswith("requests holds") or p.startswith("client bytes unread")
                 for p in probs):
